@@ -13,6 +13,7 @@ mod c08;
 mod c11;
 mod c17;
 mod c18;
+mod c20;
 mod enumf;
 mod engine;
 mod faults;
@@ -32,7 +33,7 @@ use json::J;
 use std::collections::BTreeMap;
 
 fn checks() -> Vec<Box<dyn Check>> {
-    vec![Box::new(c01::C01), Box::new(c06::C06), Box::new(c08::C08), Box::new(c11::C11), Box::new(c17::C17), Box::new(c18::C18)]
+    vec![Box::new(c01::C01), Box::new(c06::C06), Box::new(c08::C08), Box::new(c11::C11), Box::new(c17::C17), Box::new(c18::C18), Box::new(c20::C20)]
 }
 
 fn find(id: &str) -> Option<Box<dyn Check>> {
